@@ -5,6 +5,8 @@ import (
 	"encoding/json"
 	"fmt"
 	"os"
+	"strconv"
+	"strings"
 
 	bip39 "github.com/islishude/bip39"
 
@@ -112,5 +114,152 @@ func init() {
 		want := unhex(cs["expected"])
 		fmt.Printf("MnemonicToSeed(%q, %q)\n observed: %x\n expected: %x\n", mn, pw, got, want)
 		return string(got) == string(want)
+	}
+}
+
+func init() {
+	replayers["script"] = func(m *ref.Model, cs map[string]interface{}) bool {
+		n, l := toInt(cs["count"]), toInt(cs["lang"])
+		script, _ := cs["script"].(string)
+		bad, outcome := runScript(m, n, l, parseScript(script))
+		fmt.Printf("NewMnemonic(%d, %s) over source script [%s]\n outcome: %s %s\n", n, ref.LangNames[l], script, outcome, bad)
+		return bad == ""
+	}
+	replayers["entlen"] = func(m *ref.Model, cs map[string]interface{}) bool {
+		n, l := toInt(cs["len"]), toInt(cs["lang"])
+		var e []byte
+		if nilv, _ := cs["nil"].(bool); !nilv {
+			e = make([]byte, n)
+			for i := range e {
+				e[i] = byte(toInt(cs["fill"]))
+			}
+		}
+		var got string
+		var err error
+		pn := call(func() { got, err = bip39.NewMnemonicByEntropy(e, Langs[l]) })
+		fmt.Printf("NewMnemonicByEntropy(len=%d nil=%v, %s)\n observed: (%q, %v) panic=%q\n", n, e == nil, ref.LangNames[l], got, err, pn)
+		if pn != "" {
+			return false
+		}
+		if ref.ValidEntLen(n) {
+			return err == nil && got != ""
+		}
+		return got == "" && err != nil && errorsIs(err, bip39.ErrEntropyLen)
+	}
+	replayers["wordcount"] = func(m *ref.Model, cs map[string]interface{}) bool {
+		n, l := toInt(cs["count"]), toInt(cs["lang"])
+		if f, ok := cs["count"].(float64); ok && (f > 9e15 || f < -9e15) {
+			fmt.Println("replay: count too large for a JSON number to carry exactly; re-run the check")
+			return true
+		}
+		src := &countingReader{}
+		if failing, _ := cs["failing"].(bool); failing {
+			src.fail = errCustom
+		}
+		prev := bip39.VerifSwapRandSource(src)
+		var got string
+		var err error
+		pn := call(func() { got, err = bip39.NewMnemonic(n, Langs[l]) })
+		bip39.VerifSwapRandSource(prev)
+		fmt.Printf("NewMnemonic(%d, %s)\n observed: (%q, %v) panic=%q, %d Read calls\n", n, ref.LangNames[l], got, err, pn, src.calls)
+		if pn != "" {
+			return false
+		}
+		if ref.ValidWordCount(n) {
+			if src.fail != nil {
+				return got == "" && err != nil
+			}
+			return err == nil && got != ""
+		}
+		return got == "" && err != nil && errorsIs(err, bip39.ErrWordLen) && src.calls == 0
+	}
+	replayers["string"] = func(m *ref.Model, cs map[string]interface{}) bool {
+		v := toInt(cs["value"])
+		var s string
+		pn := call(func() { s = bip39.Language(v).String() })
+		want := fmt.Sprintf("Language(%d)", v)
+		if v >= 0 && v < ref.NLang {
+			want = ref.LangNames[v]
+		}
+		fmt.Printf("Language(%d).String()\n observed: %q panic=%q\n expected: %q\n", v, s, pn, want)
+		return pn == "" && s == want
+	}
+	replayers["checkpair"] = func(m *ref.Model, cs map[string]interface{}) bool {
+		a, b, l := string(unhex(cs["a"])), string(unhex(cs["b"])), toInt(cs["lang"])
+		ea, eb := bip39.CheckMnemonic(a, Langs[l]), bip39.CheckMnemonic(b, Langs[l])
+		fmt.Printf("CheckMnemonic(%+q) = %v\nCheckMnemonic(%+q) = %v   (%s; both strings have the same NFKD form)\n", a, ea, b, eb, ref.LangNames[l])
+		return classify(ea) == classify(eb)
+	}
+	replayers["seedpair"] = func(m *ref.Model, cs map[string]interface{}) bool {
+		m1, p1, m2, p2 := string(unhex(cs["m1"])), string(unhex(cs["p1"])), string(unhex(cs["m2"])), string(unhex(cs["p2"]))
+		s1, s2 := bip39.MnemonicToSeed(m1, p1), bip39.MnemonicToSeed(m2, p2)
+		fmt.Printf("MnemonicToSeed(%+q, %+q) = %x\nMnemonicToSeed(%+q, %+q) = %x   (components have equal NFKD forms)\n", m1, p1, s1, m2, p2, s2)
+		return string(s1) == string(s2)
+	}
+	replayers["seed-fresh"] = func(m *ref.Model, cs map[string]interface{}) bool {
+		mn, pw := string(unhex(cs["mnemonic"])), string(unhex(cs["passphrase"]))
+		first := bip39.MnemonicToSeed(mn, pw)
+		keep := append([]byte(nil), first...)
+		for i := range first {
+			first[i] ^= 0xFF
+		}
+		again := bip39.MnemonicToSeed(mn, pw)
+		fmt.Printf("MnemonicToSeed(%+q, %+q) twice, first result overwritten in between\n first:  %x\n second: %x\n", mn, pw, keep, again)
+		return string(again) == string(keep)
+	}
+	replayers["seed-returns"] = func(m *ref.Model, cs map[string]interface{}) bool {
+		mn, pw := string(unhex(cs["mnemonic"])), string(unhex(cs["passphrase"]))
+		pn := call(func() { _ = bip39.MnemonicToSeed(mn, pw) })
+		fmt.Printf("MnemonicToSeed(%+q, %+q) panic=%q\n", mn, pw, pn)
+		return pn == ""
+	}
+	replayers["big"] = func(m *ref.Model, cs map[string]interface{}) bool {
+		unit, n := string(unhex(cs["unit"])), toInt(cs["repeat"])
+		s := strings.Repeat(unit, n)
+		pn := call(func() {
+			_ = bip39.CheckMnemonic(s, bip39.English)
+			_ = bip39.MnemonicToSeed(s, "")
+			_ = bip39.MnemonicToSeed("x", s)
+		})
+		fmt.Printf("CheckMnemonic / MnemonicToSeed on %+q x %d: panic=%q\n", unit, n, pn)
+		return pn == ""
+	}
+	replayers["langcall"] = func(m *ref.Model, cs map[string]interface{}) bool {
+		v := toInt(cs["value"])
+		lg := bip39.Language(v)
+		valid := m.Encode(make([]byte, 16), 2)
+		pn := call(func() {
+			_ = lg.String()
+			_ = bip39.CheckMnemonic(valid, lg)
+			_ = bip39.IsMnemonicValid("zzz "+valid, lg)
+			_, _ = bip39.NewMnemonicByEntropy(make([]byte, 20), lg)
+			prev := bip39.VerifSwapRandSource(&countingReader{})
+			defer bip39.VerifSwapRandSource(prev)
+			_, _ = bip39.NewMnemonic(12, lg)
+			_, _ = bip39.NewMnemonic(13, lg)
+		})
+		fmt.Printf("all entry points with Language(%d): panic=%q\n", v, pn)
+		return pn == ""
+	}
+	replayers["sweep"] = func(m *ref.Model, cs map[string]interface{}) bool {
+		prefix := string(unhex(cs["prefix"]))
+		l, _ := strconv.Atoi(fmt.Sprint(cs["lang"]))
+		words := strings.Split(prefix, " ")
+		acc := 0
+		for x := 0; x < 2048; x++ {
+			if bip39.CheckMnemonic(prefix+" "+m.List[l][x], Langs[l]) == nil {
+				acc++
+			}
+		}
+		want := 1 << uint(11-(len(words)+1)/3)
+		fmt.Printf("prefix %q (%s): %d of 2048 last words accepted, expected exactly %d\n", prefix, ref.LangNames[l], acc, want)
+		return acc == want
+	}
+	for _, k := range []string{"injectivity", "list-digest", "source", "string-names", "generator-canonical"} {
+		k := k
+		replayers[k] = func(m *ref.Model, cs map[string]interface{}) bool {
+			fmt.Printf("replay: a %q case is a statement about a whole list or scope; re-run the check (vcheck run <id>) to reproduce it\n", k)
+			return true
+		}
 	}
 }
